@@ -22,8 +22,11 @@ import (
 	"strconv"
 	"strings"
 	"sync"
+	"sync/atomic"
 	"testing"
 	"time"
+
+	"github.com/sirupsen/logrus"
 )
 
 type c01Content struct {
@@ -135,6 +138,20 @@ func c01Strip(l string) string {
 	return l
 }
 
+// c01LogHook: the buffer pool says "reached max buffers (n), waiting" on the goroutine that is about to
+// wait for a buffer; fn runs there.
+type c01LogHook struct{ fn func(msg string) }
+
+func (h *c01LogHook) Levels() []logrus.Level { return logrus.AllLevels }
+func (h *c01LogHook) Fire(e *logrus.Entry) error {
+	if f := h.fn; f != nil {
+		f(e.Message)
+	}
+	return nil
+}
+
+var c01PoolSlow int32 // a pool whose accounting did not settle was seen in this process
+
 // c01Trigger: fn runs once, at the first yield point of the volume code whose label is in labels.
 type c01Trigger struct {
 	labels map[string]bool
@@ -225,6 +242,8 @@ func TestVerifC01(t *testing.T) {
 				sz := c01Sizes[r.Intn(len(c01Sizes))]
 				if r.Chance(1, 5) {
 					sz = r.Intn(300)
+				} else if r.Chance(1, 6) {
+					sz = 40000 + r.Intn(60000) // more than one 32 KiB chunk of the volume's copy loop
 				}
 				b.data = c01RandBytes(r, sz)
 			}
@@ -405,6 +424,8 @@ func TestVerifC01(t *testing.T) {
 		// volume work when it starts to write, the stalled PUT has not started it, so the case is still a
 		// request SEQUENCE for the model: [GET; nested...] resp. [nested...; PUT].
 		var pool *ksPool
+		var poolHook *c01LogHook
+		poolCount, poolHeld := 0, 0
 		var trig *c01Trigger
 		insideAbandon := false
 		var pendingObs []int
@@ -418,7 +439,13 @@ func TestVerifC01(t *testing.T) {
 			if rv.Chance(2, 3) {
 				heldN = 1 + rv.Intn(2)
 			}
-			pool = ksInstallPoolHeld(env.quiet, 2+rv.Intn(2), heldN)
+			plog := logrus.New()
+			plog.SetOutput(ioutil.Discard)
+			poolHook = &c01LogHook{}
+			plog.AddHook(poolHook)
+			poolCount = 2 + rv.Intn(2)
+			pool = ksInstallPoolHeld(plog, poolCount, heldN)
+			poolHeld = heldN
 			tags = append(tags, fmt.Sprintf("pool-held-elsewhere=%d", heldN))
 			// also at every filesystem step inside the volume work (when unix_volume.go is the
 			// instrumented copy): whatever is in the pool then may be overwritten by somebody else
@@ -452,7 +479,7 @@ func TestVerifC01(t *testing.T) {
 		// what is stored under a block's name on the (first) volume right now: "" = no such file
 		fileNow := func(b *c01Block) bool {
 			fi, err := os.Lstat(filepath.Join(env.dirs[0], b.hash[:3], b.hash))
-			return err == nil && !fi.IsDir()
+			return err == nil && fi.Mode().IsRegular() && fi.Size() <= BlockSize // Compare reads it (under the volume lock)
 		}
 		var perform func(rr *vRand, kind string, b *c01Block, bidx int, nested func()) int
 		perform = func(rr *vRand, kind string, b *c01Block, bidx int, nested func()) int {
@@ -460,7 +487,7 @@ func TestVerifC01(t *testing.T) {
 			if (kind == "PUTSHORT" || kind == "PUTFAIL") && (b.big || len(b.data) == 0) {
 				kind = "PUT" // nothing to cut
 			}
-			if (kind == "PUTABANDON" || kind == "PUTLOCKED" || kind == "PUTHANGUP") && (b.big || pool == nil) {
+			if (kind == "PUTABANDON" || kind == "PUTLOCKED" || kind == "PUTHANGUP" || kind == "PUTNOBUF") && (b.big || pool == nil) {
 				kind = "PUT"
 			}
 			var gop, gbody, gcl string
@@ -513,8 +540,29 @@ func TestVerifC01(t *testing.T) {
 				var c *c01Content
 				var d []byte
 				short := false
+				var taken [][]byte
 				var cn *c01CN // a client that can go away
 				switch kind {
+				case "PUTNOBUF":
+					// every buffer is out (requests of other clients that are stalled); this PUT has to wait for one
+					// and its client goes away while it waits (at the moment the pool reports that it must wait).
+					// Then the other requests finish.  Nothing of the pool may be lost by that.
+					d = b.data
+					if d == nil {
+						d = []byte{}
+					}
+					body, c = bytes.NewReader(d), tab.bytes(d)
+					cn = &c01CN{ResponseRecorder: httptest.NewRecorder(), ch: make(chan bool)}
+					for pool.p.Len() < pool.p.Cap() {
+						taken = append(taken, pool.p.Get(BlockSize))
+					}
+					fired := false
+					poolHook.fn = func(msg string) {
+						if !fired && strings.HasPrefix(msg, "reached max buffers") {
+							fired = true
+							cn.hangUp()
+						}
+					}
 				case "PUTABANDON", "PUTLOCKED", "PUTHANGUP":
 					// PUTABANDON: while this PUT is inside WriteBlock (temp file created, copy under way) a complete
 					//   PUT of the SAME block runs and is answered, then this request's client goes away.
@@ -647,6 +695,28 @@ func TestVerifC01(t *testing.T) {
 				if cn != nil {
 					returned := ksGuard(func() { env.serve(cn, "PUT", "/"+b.hash, body, clen, false) })
 					verifSetAuxHook(nil)
+					if kind == "PUTNOBUF" {
+						poolHook.fn = nil
+						for _, tb := range taken {
+							pool.p.Put(tb)
+						}
+						// the getter this request left behind now obtains a buffer and must give it back: wait until
+						// the pool counts only the buffers held for the whole case (first time in a process: up to
+						// 20 s; once a pool did not settle: 100 ms, the run has failed by then)
+						limit := 20 * time.Second
+						if atomic.LoadInt32(&c01PoolSlow) > 0 {
+							limit = 100 * time.Millisecond
+						}
+						t0 := time.Now()
+						for pool.p.Len() != poolHeld && time.Since(t0) < limit {
+							runtime.Gosched()
+							time.Sleep(100 * time.Microsecond)
+						}
+						if pool.p.Len() != poolHeld {
+							atomic.AddInt32(&c01PoolSlow, 1)
+							tags = append(tags, "pool-count-did-not-settle")
+						}
+					}
 					if kind != "PUTHANGUP" {
 						trig = nil
 					}
@@ -716,7 +786,7 @@ func TestVerifC01(t *testing.T) {
 				dsc = fmt.Sprintf("%s %s (%s) -> %d", kind, b.hash[:6], shortNote, code)
 			}
 			if cancelled {
-				dsc += " (its client went away: " + map[string]string{"PUTABANDON": "during the copy in WriteBlock, after the preceding PUT was answered", "PUTLOCKED": "-", "PUTHANGUP": "while waiting for the volume's Serialize lock, held by the following request"}[kind] + ")"
+				dsc += " (its client went away: " + map[string]string{"PUTNOBUF": "while waiting for a buffer, all of them being out", "PUTABANDON": "during the copy in WriteBlock, after the preceding PUT was answered", "PUTLOCKED": "-", "PUTHANGUP": "while waiting for the volume's Serialize lock, held by the following request"}[kind] + ")"
 			}
 			if hung && code == 0 {
 				dsc = fmt.Sprintf("%s %s -> the handler did not return", kind, b.hash[:6])
@@ -733,7 +803,7 @@ func TestVerifC01(t *testing.T) {
 			}
 			return code
 		}
-		for !hung && len(ops) < nops+4 && (len(ops) < nops || len(queue) > 0) {
+		for !hung && len(ops) < nops+6 && (len(ops) < nops || len(queue) > 0) {
 			var kind string
 			b := blocks[r.Intn(len(blocks))]
 			if len(queue) > 0 {
@@ -787,10 +857,27 @@ func TestVerifC01(t *testing.T) {
 			}
 			// (PUTABANDON: two writes of one block at the same time are a request sequence for the model only
 			// when both go to the same volume)
-			if overlap && len(queue) == 0 && (serialize || nwr == 1) && rv.Chance(1, 3) {
+			if overlap && len(queue) == 0 && kind != "PUTNOBUF" && rv.Chance(1, 8) {
+				// as many as the pool has buffers for this case's requests, then a GET
+				kind = "PUTNOBUF"
+				for k := 1; k < poolCount; k++ {
+					queue = append(queue, fmt.Sprintf("PUTNOBUF:%d", bidx))
+				}
+				queue = append(queue, fmt.Sprintf("GET:%d", bidx))
+			}
+			if kind == "PUTNOBUF" {
+				ksOneP(func() { code = perform(r, kind, b, bidx, nil) })
+			} else if overlap && len(queue) == 0 && (serialize || nwr == 1) && rv.Chance(1, 3) {
 				kind = "PUTABANDON"
 				if serialize {
 					kind = "PUTLOCKED"
+				} else {
+					// the longest block of the case: a write of several chunks can be abandoned half-way
+					for j := range blocks {
+						if !blocks[j].big && !b.big && len(blocks[j].data) > len(b.data) {
+							b, bidx = blocks[j], j
+						}
+					}
 				}
 				ksOneP(func() { code = perform(r, kind, b, bidx, nil) })
 			} else if overlap && rv.Chance(3, 4) {
